@@ -4,9 +4,9 @@
     positive, nat stay the extracted inductives.  The .ml/.mli files land in
     the directory coqc is started from (/verif/_work/ocaml). *)
 From Coq Require Import Extraction ExtrOcamlBasic.
-From UV Require Import Model.Codec Model.FsProto Model.Backup Proofs.BackupProofs.
+From UV Require Import Model.Codec Model.FsProto Model.Backup Proofs.BackupProofs Proofs.CheckProofs.
 Extraction Language OCaml.
 Extraction "uvmodel.ml" Codec.run_file Codec.decode_unicode Codec.repo_check_min
   Codec.write_string Codec.write_bom
   FsProto.run FsProto.no_plan FsProto.disk0
-  Backup.step Backup.admissible Backup.pstep Backup.own BackupProofs.idh.
+  Backup.step Backup.admissible Backup.pstep Backup.own BackupProofs.idh CheckProofs.check_exit.
